@@ -52,8 +52,8 @@ func init() {
 		Assumptions: []string{"recording wrappers around the standard deterministic function set"},
 		Plan: func(tier string, seed int64) *harness.Plan {
 			sys := newSysCases(tier)
-			nRand := size(tier, 120000, 1500000)
-			nStr := size(tier, 60000, 800000)
+			nRand := size(tier, 120000, 6000000)
+			nStr := size(tier, 60000, 3000000)
 			var src *strSource
 			return &harness.Plan{
 				N: sys.n() + nRand + nStr,
